@@ -19,7 +19,8 @@ EXPLANATION = (
     "state tables; (5) Operator.transition forwards (self, new_state) unchanged; (6) RUNNING transitions exist only in "
     "Container._tick_generator, as the first action on each operator of self.operators in list order; (7) get_ops "
     "appends an operator only if its state is allowed and (not require_parents_complete or all parents COMPLETED) and "
-    "lists operators in insertion order of operator_states, which (8) is filled by iterating the pipeline DAG; "
+    "lists operators in insertion order of operator_states, which (8) is filled by iterating the pipeline DAG and is keyed by operator "
+    "identity (neither Operator nor a base class defines a value-based __eq__/__hash__; id-based forms are identity); "
     "(9) DAGIterator.__next__ marks the node returned before scanning children and enqueues a child only if it has "
     "not been returned and all its parents have (Kahn's invariant), returning the element it dequeued; (10) "
     "DAG.add_node asserts parents are members before adding both edge directions and records roots. With C02's table "
